@@ -76,7 +76,12 @@ def date(  # noqa: PLR0912 PLR0911
         if dat in ("now", "today"):
             dat = datetime.datetime.now()
         elif dat.isdigit():
-            dat = datetime.datetime.fromtimestamp(int(dat))
+            try:
+                dat = datetime.datetime.fromtimestamp(int(dat))
+            except (OverflowError, OSError):
+                # Input is returned unchanged, as it is for an integer that
+                # is not a timestamp.
+                return str(dat)
         else:
             try:
                 dat = parser.parse(dat)
